@@ -117,4 +117,45 @@ older than the window below the largest counter accepted so far. -/
 def specAccept (acc : List Nat) (c : Nat) : Bool :=
   !acc.contains c && acc.all (fun a => a ≤ c + L)
 
+/-! ### Unsecured sessions: the same, plus the restart rule
+
+Written from the property text: between two restarts of the peer's counter a value is accepted at
+most once, a newer value and an in-window first-timer are accepted; a value that lies more than
+the window below a value accepted since the last restart IS a restart: it is accepted and starts a
+new epoch. `floor` is the value the current epoch started with after a restart (0 in the first
+epoch): what the peer sent *below* it before the receiver noticed the restart is unknowable, the
+code treats the window below a restart point as already received (like a group sender's
+trust-first message) -- the property is silent there (`specPlainDemand = none`). -/
+
+structure PSpec where
+  /-- restart point of the current epoch (0 before the first restart) -/
+  floor : Nat
+  /-- values accepted in the current epoch, newest first -/
+  acc : List Nat
+deriving Repr, DecidableEq, Inhabited
+
+def PSpec.init : PSpec := { floor := 0, acc := [] }
+
+/-- `c` is a restart: more than the window below a value accepted in this epoch -/
+def PSpec.isRestart (p : PSpec) (c : Nat) : Bool := p.acc.any (fun a => decide (c + L < a))
+
+/-- the verdict of the code, exactly (theorem `unsecured_is_spec`) -/
+def specPlainAccept (p : PSpec) (c : Nat) : Bool :=
+  p.acc.isEmpty || p.isRestart c || (!p.acc.contains c && decide (p.floor ≤ c))
+
+/-- what the property demands: `none` = silent (a first-timer below the restart point) -/
+def specPlainDemand (p : PSpec) (c : Nat) : Option Bool :=
+  if p.acc.isEmpty then some true
+  else if p.isRestart c then some true
+  else if p.acc.contains c then some false
+  else if c < p.floor then none
+  else some true
+
+/-- epoch bookkeeping, given the verdict that was observed -/
+def specPlainNext (p : PSpec) (c : Nat) (accepted : Bool) : PSpec :=
+  if !accepted then p
+  else if p.acc.isEmpty then { floor := 0, acc := [c] }
+  else if p.isRestart c then { floor := c, acc := [c] }
+  else { p with acc := c :: p.acc }
+
 end Dedup
